@@ -369,3 +369,8 @@ for _p in ("C01", "C10"):
 H("C02", "html/layout", "VxH_C02_line_floats", reach=["laid-out"], bounds="two block floats (the second 80 / 150px wide, 5 / 15 / 50px high) followed by a paragraph 'xx <tall span> <float> zz' in a 200px body; tall span font size 10 / 20 / 30px, line float width 20 / 100 / 190px; VxAhem font model", quick={"maxsteps": 200000000, "shards": 6})
 H("C15", "html/layout", "VxH_C15_broken_floats", reach=["laid-out", "all-floats-continue"], bounds="2..3 left floats of two 60px blocks each on 100px pages (every float is broken by the first page break); the map of broken out-of-flow boxes visited in every order, two independent runs", quick={"maxsteps": 300000000, "shards": 4})
 H("C02", "html/layout", "VxH_C02_broken_float", reach=["laid-out"], bounds="a left float holding 2..3 blocks of 60px on 100px pages, followed or not by in-flow content", quick={"maxsteps": 200000000})
+H("C19", "html/boxes", "VxH_C19_li_value", reach=["built"], bounds="<ol start=none/5/0><li><li value=none/7/-2><li></ol> and <ul value=none/9>, presentational hints on; the marker texts", quick={"maxsteps": 100000000})
+H("C20", "css/parser", "VxH_C20_pairs_cdc", reach=["reparsed"], bounds="any single token from 1..2 (thorough 3) source bytes followed by the CDC token")
+H("C18", "svg", "VxH_C18_path_details", reach=["parsed"], bounds="an arc command (absolute / relative) with two argument groups, end points from small sets; a number with an upper-case exponent")
+H("C18", "svg", "VxH_C18_rect_radii", reach=["built"], bounds="<rect> with rx, ry each absent or one of three numbers")
+H("C18", "svg", "VxH_C18_value_units", reach=["parsed"], bounds="4 numbers x the 11 SVG length units x optional space")
